@@ -1,57 +1,79 @@
-"""U16 -- Hermes function-map decoding: the body of the closure in decode_hermes (src/hermes.rs) against an independent
-reading of Metro's format"""
+"""U16 -- decode_hermes (src/hermes.rs): the closure that reads one function map, lifted to a function (R-lift), against an
+independent reading of Metro's format; and decode_hermes around it"""
 import re
 from vx.rs import Fn, LostAnchor, mask, match_close
 from .common import emit_struct, emit_error_enum, guarded
+from .u9_dispatch import emit_json_struct
+from .u6_root import prelude_types
 
 NAME = 'u16_hermes_decode'
-PROPS = ['C14', 'C05']
+PROPS = ['C14', 'C05', 'C02', 'C01']
 H = 'src/hermes.rs'
+T = 'src/types.rs'
+J = 'src/jsontypes.rs'
 
 MUTANTS = [
     ('hermes::decode_hermes__function_map', r'let mut line = 1;', 'let mut line = 0;'),
     ('hermes::decode_hermes__function_map', r'name_index = \(i64::from\(name_index\) \+ nums\.next\(\)\.unwrap_or\(0\)\) as u32;', 'name_index = nums.next().unwrap_or(0) as u32;'),
     ('hermes::decode_hermes__function_map', r'let mut column = 0;\n', 'let mut column = 0; line += 1;\n'),
+    ('hermes::decode_hermes__function_map', r'nums\.clear\(\);\n', '\n'),
+    ('hermes::decode_hermes__function_map', r'names: names\.clone\(\),', 'names: Vec::new(),'),
+    ('hermes::decode_hermes', r'raw_facebook_sources: Some\(x_facebook_sources\),', 'raw_facebook_sources: None,'),
+    ('hermes::decode_hermes', r'let sm = decode_regular\(rsm\)\?;', 'let sm = decode_regular(rsm)?; function_maps.pop();'),
 ]
 
-SIG = "pub fn decode_hermes__function_map(raw_mappings: &str) -> Option<Vec<HermesScopeOffset>> {\n"
-# statements of the closure that are not part of the outlined function; each is checked to be textually unchanged
-DROPPED_HEAD = 'let FacebookScopeMapping { names, mappings: raw_mappings, } = v.as_ref()?.iter().next()?;'
-DROPPED_TAIL = 'Some(HermesFunctionMap { names: names.clone(), mappings, })'
+SIG = "pub fn decode_hermes__function_map(v: &Option<Vec<FacebookScopeMapping>>, nums: &mut Vec<i64>) -> Option<HermesFunctionMap> {\n"
 NUMS_DECL = 'let mut nums = Vec::with_capacity(4);'
+CLOSURE_RX = r'\.map\(\|v\| \{'
 
 
-def outline_function_map(u):
-    """R-outline (closure): the body of the closure `|v| { .. }` passed to `map` in decode_hermes, from `let mut mappings`
-    to the end of its loop, verbatim, as a function of its one free variable `raw_mappings`; the scratch vector `nums`
-    declared just before the closure in decode_hermes becomes the function's first statement.  Dropped (checked textually):
-    the destructuring of the first scope mapping of a non-null entry, and the final `Some(HermesFunctionMap { names, mappings })`
-    (the function returns `Some(mappings)`)."""
-    f = u.get_fn(H, 'decode_hermes')
+def closure_span(f):
     t = f.text
-    m = re.search(r'\.map\(\|v\| \{', t)
+    m = re.search(CLOSURE_RX, t)
     if not m:
         raise LostAnchor('decode_hermes: closure `.map(|v| {` not found')
-    msk = mask(t)
-    close = match_close(msk, m.end() - 1)
+    close = match_close(mask(t), m.end() - 1)
+    return m, close
+
+
+def lift_function_map(u):
+    """R-lift (closure -> function): the closure `|v| { .. }` passed to `map` in decode_hermes becomes the function
+    `decode_hermes__function_map(v, nums)`: its body verbatim, its one captured variable -- the scratch vector `nums`,
+    captured by unique borrow -- becomes a `&mut Vec<i64>` parameter, so `&mut nums` / `nums.iter()` inside read
+    `&mut *nums` / `(&*nums).iter()`.  `?` inside leaves the closure, hence the function, with None, as before."""
+    f = u.get_fn(H, 'decode_hermes')
+    t = f.text
+    m, close = closure_span(f)
     body = t[m.end():close]
     if ' '.join(NUMS_DECL.split()) not in ' '.join(t[:m.start()].split()):
         raise LostAnchor('decode_hermes: scratch vector declaration changed')
-    i = body.find('let mut mappings')
-    j = body.rfind('Some(HermesFunctionMap')
-    if i < 0 or j < 0:
-        raise LostAnchor('decode_hermes: closure shape changed')
-    head = ' '.join(body[:i].split())
-    tail = ' '.join(body[j:].split())
-    if head != DROPPED_HEAD:
-        raise LostAnchor('decode_hermes: closure head changed: %s' % head)
-    if tail != DROPPED_TAIL:
-        raise LostAnchor('decode_hermes: closure tail changed: %s' % tail)
-    core = body[i:j]
-    lines = [l[8:] if l.startswith(' ' * 8) else l for l in core.splitlines()]
-    text = SIG + '    let mut nums: Vec<i64> = Vec::with_capacity(4);\n' + '    ' + '\n'.join(lines).strip('\n') + '\n    Some(mappings)\n}\n'
-    u.count('R-outline')
-    return Fn(text, origin=f.origin, name='decode_hermes__function_map')
+    lines = [l[8:] if l.startswith(' ' * 8) else l for l in body.splitlines()]
+    text = SIG + '    ' + '\n'.join(lines).strip('\n').strip() + '\n}\n'
+    u.count('R-lift')
+    g = Fn(text, origin=f.origin, name='decode_hermes__function_map')
+    u.count('R-lift', g.rewrite(r'&mut nums\b', '&mut *nums', expect=1))
+    return g
+
+
+def wrapper(u):
+    """decode_hermes itself, with the closure replaced by a call of the lifted function and
+    R-map-collect: `let X = E.iter().map(|v| F(v)).collect();` -> `let mut X = Vec::new(); for v in E.iter() { X.push(F(v)); }`
+    (map + collect into a Vec is the in-order loop of pushes)."""
+    f = u.get_fn(H, 'decode_hermes')
+    m, close = closure_span(f)
+    t = f.text
+    if not re.match(r'\)\s*\.collect\(\);', t[close + 1:]):
+        raise LostAnchor('decode_hermes: `.collect();` after the closure not found')
+    end = close + 1 + re.match(r'\)\s*\.collect\(\);', t[close + 1:]).end()
+    head = re.search(r'let (\w+) = (\w+)\s*\.iter\(\)\s*$', t[:m.start()])
+    if not head:
+        raise LostAnchor('decode_hermes: `let X = E.iter().map(..)` not found')
+    x, e = head.group(1), head.group(2)
+    loop = 'let mut %s = Vec::new();\n    for v in %s.iter() {\n        %s.push(decode_hermes__function_map(v, &mut nums));\n    }' % (x, e, x)
+    g = Fn(t[:head.start()] + loop + t[end:], origin=f.origin, name='decode_hermes')
+    u.count('R-lift')
+    u.count('R-map-collect')
+    return g
 
 
 def build(u):
@@ -61,16 +83,39 @@ def build(u):
     u.prelude('shim_int.rs')
     u.prelude('shim_split.rs')
     u.prelude('shim_copied.rs')
+    prelude_types(u)
+    u.prelude('json_types_stub.rs')
+    u.prelude('shim_string_bytes.rs')
     emit_error_enum(u)
+    for n in ['RawSectionOffset', 'RawSection', 'FacebookScopeMapping', 'RawSourceMap']:
+        emit_json_struct(u, n)
+    text, origin = u.get_item_text(J, r'(?m)^pub type FacebookSources\b', 'type FacebookSources', semi=True)
+    u.emit_text('jsontypes::FacebookSources', text, origin)
+    emit_struct(u, T, 'RawToken', keep_derive=True)
+    emit_struct(u, T, 'SourceMap')
     emit_struct(u, H, 'HermesScopeOffset')
+    emit_struct(u, H, 'HermesFunctionMap')
+    emit_struct(u, H, 'SourceMapHermes')
     u.spec('vlq.rs')
     u.spec('hermes_decode.rs')
+    u.spec('hermes_wrap.rs')
     f = u.get_fn('src/vlq.rs', 'parse_vlq_segment_into')
     u.import_fn(f, 'vlq::parse_vlq_segment_into', 'u1_vlq.ctr', 'u1_vlq')
 
     def prep(g):
         u.count('R-shim-call', g.rewrite(r"\b([a-z_]+)\s*\.split\('(.)'\)", r"verif_split(\1, '\2')", expect=2))
         u.count('R-shim-call', g.rewrite(r'\b([a-z_]+)\.is_empty\(\)', r'verif_str_is_empty(\1)', expect=2))
-        u.count('R-shim-call', g.rewrite(r'\bnums\.iter\(\)\.copied\(\)', 'verif_iter_copied(&nums)', expect=1))
+        u.count('R-shim-call', g.rewrite(r'\bnums\.iter\(\)\.copied\(\)', 'verif_iter_copied(&*nums)', expect=1))
         u.count('R-continue', g.guard_continues())
-    guarded(u, 'hermes::decode_hermes__function_map', lambda: outline_function_map(u), prep, wrap=lambda: None)
+    guarded(u, 'hermes::decode_hermes__function_map', lambda: lift_function_map(u), prep, wrap=lambda: None)
+
+    u.raw('stub decode_regular', '''//@@ prelude decode_regular_stub
+//# assumes: nothing about decode_regular beyond its being a function of the raw document (its parts are under contract in u4 / u10)
+pub uninterp spec fn decode_regular_res(rsm: RawSourceMap) -> Result<SourceMap>;
+#[verifier::external_body]
+pub fn decode_regular(rsm: RawSourceMap) -> (res: Result<SourceMap>)
+    ensures res == decode_regular_res(rsm)
+{ unimplemented!() }
+//@@ endprelude
+''')
+    guarded(u, 'hermes::decode_hermes', lambda: wrapper(u), None, wrap=lambda: None)
